@@ -9,7 +9,7 @@ import (
 func baseCfg() engine.GenCfg {
 	return engine.GenCfg{
 		MinOps: 5, MaxOps: 40, PBurst: 40, PPlug: 70, MaxBurst: 30, PApi: 10,
-		Spellings: true, Shapes: true, Sub: true, Symlinks: true,
+		Spellings: true, Shapes: true, Sub: true, Symlinks: true, PMacro: 4,
 	}
 }
 
